@@ -246,6 +246,118 @@ def check_contains(repo, qualname, label, snippets, kind="ownership"):
                  reason=None if ok else "expected (deep-copying) expression not found: %s" % "; ".join(missing))]
 
 
+# ------------------------------------------------------------------ ownership by data flow (robust to renamed locals)
+DEEP_FUNCS = {"deepcopy", "copy_state_data", "vars_clone"}          # assumed / separately obliged to return an unshared value
+DEEP_METHODS = {"deepcopy", "clone", "as_dict", "from_bytes"}                     # x.clone(), x.as_dict(), copy.deepcopy(x)
+
+
+def _is_fresh(e, fdef, params, seen, unless=None):
+    """Is the value of expression `e` unshared with anything the caller (or the receiver) can reach?  Syntactic data flow:
+    constants; calls of the deep copiers; `t.copy(x)` (the one-argument state-type copy, never the shallow `d.copy()`);
+    constructor calls / `from_dict` whose arguments are fresh; literals of fresh parts; locals all of whose assignments are fresh."""
+    if isinstance(e, ast.Constant):
+        return True
+    if isinstance(e, ast.Call):
+        f = e.func
+        if isinstance(f, ast.Name):
+            if f.id in DEEP_FUNCS:
+                return True
+            if f.id[:1].isupper():
+                return all(_is_fresh(a, fdef, params, seen) for a in e.args) and all(_is_fresh(k.value, fdef, params, seen) for k in e.keywords)
+            return False
+        if isinstance(f, ast.Attribute):
+            if f.attr in DEEP_METHODS:
+                return True
+            if f.attr == "copy" and len(e.args) == 1 and not e.keywords:
+                return True
+            if f.attr == "from_dict":
+                return all(_is_fresh(a, fdef, params, seen) for a in e.args)
+            if f.attr == "__class__":
+                return not e.args
+        return False
+    if isinstance(e, ast.Name):
+        if e.id in params or e.id in seen:
+            return False
+        assigns = []
+        for n in ast.walk(fdef):
+            if isinstance(n, ast.Assign):
+                for t in n.targets:
+                    if isinstance(t, ast.Name) and t.id == e.id:
+                        assigns.append(n.value)
+                    elif isinstance(t, (ast.Tuple, ast.List)) and any(isinstance(x, ast.Name) and x.id == e.id for x in ast.walk(t)):
+                        return False
+            elif isinstance(n, (ast.AugAssign, ast.AnnAssign, ast.NamedExpr)) and isinstance(n.target, ast.Name) and n.target.id == e.id:
+                if getattr(n, "value", None) is None or isinstance(n, ast.AugAssign):
+                    return False
+                assigns.append(n.value)
+            elif isinstance(n, (ast.For, ast.comprehension)) and any(isinstance(x, ast.Name) and x.id == e.id for x in ast.walk(n.target)):
+                return False
+            elif isinstance(n, ast.With):
+                for it in n.items:
+                    if it.optional_vars is not None and any(isinstance(x, ast.Name) and x.id == e.id for x in ast.walk(it.optional_vars)):
+                        return False
+        return bool(assigns) and all(_is_fresh(v, fdef, params, seen | {e.id}, unless) for v in assigns)
+    if isinstance(e, ast.IfExp):
+        if unless is not None and any(isinstance(x, ast.Name) and x.id == unless for x in ast.walk(e.test)) and isinstance(e.test, ast.Name):
+            return _is_fresh(e.orelse, fdef, params, seen)
+        return _is_fresh(e.body, fdef, params, seen) and _is_fresh(e.orelse, fdef, params, seen)
+    if isinstance(e, (ast.Tuple, ast.List, ast.Set)):
+        return all(_is_fresh(x, fdef, params, seen) for x in e.elts)
+    if isinstance(e, ast.Dict):
+        return all(k is not None and _is_fresh(k, fdef, params, seen) for k in e.keys) and all(_is_fresh(v, fdef, params, seen) for v in e.values)
+    if isinstance(e, ast.JoinedStr):
+        return True
+    return False
+
+
+def check_owned(repo, qualname, label, sink, unless=None):
+    """Ownership obligation (DESIGN 3.3) by data flow on the real source: every value reaching the named sink is unshared.
+    sinks: "return" | "attr:<name>" (stores to <x>.<name>) | "item:<attr>" (stores to <x>.<attr>[..]) |
+    "arg:<callee>:<i>" (i-th positional argument of every call of <callee>) | "kwcall:<kw>:<i>" (of every call passing keyword <kw>).  `unless=<flag>`: `a if <flag> else b` needs only b."""
+    found = repo.find(qualname)
+    name = "%s#ownership:%s" % (qualname, label)
+    if found is None:
+        return [dict(name=name, kind="ownership", result="undischarged", backend="static", seconds=0.0, reason="function not found")]
+    fdef = found[0]
+    a = fdef.args
+    params = {x.arg for x in a.posonlyargs + a.args + a.kwonlyargs} | ({a.vararg.arg} if a.vararg else set()) | ({a.kwarg.arg} if a.kwarg else set())
+    sinks = []
+    own = [n for n in ast.walk(fdef)]
+    nested = set()
+    for n in own:
+        if n is not fdef and isinstance(n, (ast.FunctionDef, ast.AsyncFunctionDef, ast.Lambda)):
+            nested |= {id(x) for x in ast.walk(n) if x is not n}
+    for n in own:
+        if id(n) in nested:
+            continue
+        if sink == "return" and isinstance(n, ast.Return) and n.value is not None:
+            sinks.append(n.value)
+        elif sink.startswith("attr:") and isinstance(n, ast.Assign):
+            for t in n.targets:
+                if isinstance(t, ast.Attribute) and t.attr == sink[5:]:
+                    sinks.append(n.value)
+        elif sink.startswith("item:") and isinstance(n, ast.Assign):
+            for t in n.targets:
+                if isinstance(t, ast.Subscript) and isinstance(t.value, ast.Attribute) and t.value.attr == sink[5:]:
+                    sinks.append(n.value)
+        elif sink.startswith("kwcall:") and isinstance(n, ast.Call):
+            _, kw, idx = sink.split(":")
+            if any(k.arg == kw for k in n.keywords) and len(n.args) > int(idx) and not isinstance(n.args[int(idx)], ast.Starred):
+                sinks.append(n.args[int(idx)])
+        elif sink.startswith("arg:") and isinstance(n, ast.Call):
+            _, callee, idx = sink.split(":")
+            f = n.func
+            fname = f.id if isinstance(f, ast.Name) else f.attr if isinstance(f, ast.Attribute) else None
+            if fname == callee and len(n.args) > int(idx) and not isinstance(n.args[int(idx)], ast.Starred):
+                sinks.append(n.args[int(idx)])
+    if not sinks:
+        return [dict(name=name, kind="ownership", result="undischarged", backend="static", seconds=0.0, reason="no sink of the form %s in the function" % sink)]
+    bad = [ast.unparse(v) for v in sinks if not _is_fresh(v, fdef, params, frozenset(), unless)]
+    ok = not bad
+    return [dict(name=name, kind="ownership", result="discharged" if ok else "undischarged", backend="static", seconds=0.0,
+                 reason=None if ok else "value reaching %s is not a deep copy: %s" % (sink, "; ".join(bad)))]
+
+
 def run_static(repo, spec):
     kind = spec[0]
     if kind == "inherits":
@@ -256,6 +368,8 @@ def run_static(repo, spec):
         return check_atomic_helper(repo, spec[1], spec[2])
     if kind == "no-inplace":
         return check_no_inplace(repo, spec[1], spec[2], spec[3])
+    if kind == "owned":
+        return check_owned(repo, spec[1], spec[2], spec[3], spec[4] if len(spec) > 4 else None)
     if kind == "contains":
         return check_contains(repo, spec[1], spec[2], spec[3], spec[4] if len(spec) > 4 else "ownership")
     if kind == "order":
